@@ -14,16 +14,36 @@
 //	         u  unsupported entry type (skipped)                 v  invalid config (MaxFileBytes 0: fails before any directory exists)
 //	         -  nothing wrong
 //
+// General form (the one the generator emits; `load n f k p` = `load2 L^n f k p 0 0`):
+//
+//	load2 <hist> <fail> <kind> <pos> <decoys> <seed>
+//	  hist   = one letter per chain layer, oldest first: L = a layer with an archive, E = a history entry that says EmptyLayer
+//	  fail   = chain-layer index (an L) the kind applies to, or '-'
+//	  kind   = the kinds above, and   e  that layer's Uncompressed() returns an error
+//	           p  os.Mkdir of the first layer directory fails (TMPDIR so deep that <TMPDIR>/osv-scalibr-image-scanning-N fits into PATH_MAX and .../layer-i does not)
+//	           m  os.MkdirTemp fails (TMPDIR does not exist)          y  v1.Image.Layers() returns an error
+//	  decoys = 0..2 directories that exist in TMPDIR before the load: osv-scalibr-image-scanning-0 (shares the prefix of the image directory), other
+//	  seed   = 0, or the seed of the HOSTILE entries added to every archive: names built from .., ., empty segments, absolute paths into
+//	           the sandbox (victim directory, TMPDIR, decoys, working directory), names sharing a prefix with layer-<i> / the image directory,
+//	           symbolic and hard links to those places followed by entries written THROUGH the links, in random order
+//
+// The sandbox of a case is <root>/{tmp (TMPDIR), cwd, tmp-sibling, victim}; it is snapshotted recursively (type, mode, size, mtime,
+// content hash, link target) before the load, after it (minus the image directory) and after CleanUp.
+//
 // Reply: err=<0|1> left=<entries in TMPDIR after the load returned> img=<1 iff ExtractDir exists below TMPDIR>
 //
 //	partial=<1 iff layer directories with files existed … only observable on success> clean=<entries in TMPDIR after CleanUp, or after the failed load>
-//	out=<-|hex items: what changed in the working directory and in a sibling directory of TMPDIR>
+//	out=<-|hex: what changed anywhere in the sandbox outside the image directory (after the load; after CleanUp: anywhere at all)>
+//	esc=<-|hex: symbolic links (or other non-file non-directory objects) found on disk inside the image directory that lead out of it>
 package main
 
 import (
 	"archive/tar"
 	"bytes"
 	"compress/gzip"
+	"crypto/sha256"
+	"errors"
+	"math/rand"
 	"fmt"
 	"io"
 	"io/fs"
@@ -70,13 +90,14 @@ func file(tw *tar.Writer, name string, size int) {
 }
 
 // layerBytes builds the archive of layer i: `pos` good entries, then the bad one (if this is the failing layer), then one more.
-func layerBytes(i int, bad bool, kind byte, pos int) []byte {
+func layerBytes(i int, bad bool, kind byte, pos int, hs []hostile, subst func(string) string) []byte {
 	var buf bytes.Buffer
 	tw := tar.NewWriter(&buf)
 	for k := 0; k < pos || (!bad && k < 2); k++ {
 		must(tw.WriteHeader(&tar.Header{Name: fmt.Sprintf("d%d/", i), Typeflag: tar.TypeDir, Mode: 0o755}))
 		file(tw, fmt.Sprintf("d%d/f%d", i, k), 3)
 	}
+	writeHostile(tw, hs, subst)
 	cut := -1
 	if bad {
 		switch kind {
@@ -117,86 +138,390 @@ func layerBytes(i int, bad bool, kind byte, pos int) []byte {
 	return b
 }
 
-func listing(dir string) []string {
-	var out []string
+// snap: every object below dir except the subtree `skip`: relative path -> description
+func snap(dir, skip, noMtime string) map[string]string {
+	out := map[string]string{}
 	_ = filepath.WalkDir(dir, func(p string, d fs.DirEntry, err error) error {
 		if p == dir {
 			return nil
 		}
+		if skip != "" && p == skip {
+			return filepath.SkipDir
+		}
 		rel, _ := filepath.Rel(dir, p)
+		if len(rel) > 120 {
+			rel = rel[:40] + "..." + rel[len(rel)-70:]
+		}
 		if err != nil {
-			out = append(out, rel+":ERR")
+			out[rel] = "ERR"
 			return nil
 		}
-		fi, _ := os.Lstat(p)
-		if fi != nil {
-			out = append(out, fmt.Sprintf("%s:%v:%d:%d", rel, fi.Mode(), fi.Size(), fi.ModTime().UnixNano()))
+		fi, e := os.Lstat(p)
+		if e != nil {
+			out[rel] = "ERR"
+			return nil
 		}
+		desc := fmt.Sprintf("%v:%d", fi.Mode(), fi.Size())
+		if p != noMtime && !strings.HasPrefix(noMtime, p+"/") {
+			desc += fmt.Sprintf(":%d", fi.ModTime().UnixNano())
+		}
+		switch {
+		case fi.Mode()&fs.ModeSymlink != 0:
+			t, _ := os.Readlink(p)
+			desc += "->" + t
+		case fi.Mode().IsRegular():
+			b, _ := os.ReadFile(p)
+			desc += fmt.Sprintf(":%x", sha256.Sum256(b))[:18]
+		}
+		out[rel] = desc
 		return nil
 	})
+	return out
+}
+
+func diff(a, b map[string]string) []string {
+	var out []string
+	for k, v := range a {
+		if w, ok := b[k]; !ok {
+			out = append(out, "deleted "+k)
+		} else if v != w {
+			out = append(out, "changed "+k+" "+v+" => "+w)
+		}
+	}
+	for k := range b {
+		if _, ok := a[k]; !ok {
+			out = append(out, "created "+k+" "+b[k])
+		}
+	}
 	sort.Strings(out)
 	return out
 }
 
-func run(base string, id, nl int, fail int, kind byte, pos int) string {
+// escapes: objects inside the image directory that are neither directories nor regular files, with where they lead
+func escapes(dir string) []string {
+	var out []string
+	_ = filepath.WalkDir(dir, func(p string, d fs.DirEntry, err error) error {
+		if err != nil || d.IsDir() || d.Type().IsRegular() {
+			return nil
+		}
+		rel, _ := filepath.Rel(dir, p)
+		t, _ := os.Readlink(p)
+		res, e := filepath.EvalSymlinks(p)
+		if e != nil {
+			res = t
+			if !filepath.IsAbs(t) {
+				res = filepath.Join(filepath.Dir(p), t)
+			}
+		}
+		if res != dir && !strings.HasPrefix(res, dir+"/") {
+			out = append(out, fmt.Sprintf("%s (%v) -> %s", rel, d.Type(), t))
+		}
+		return nil
+	})
+	return out
+}
+
+type badLayer struct{ v1.Layer }
+
+func (badLayer) Uncompressed() (io.ReadCloser, error) { return nil, errors.New("injected: cannot open layer") }
+
+type wrapImage struct {
+	v1.Image
+	bad       int // v1 layer index whose Uncompressed fails, or -1
+	layersErr bool
+}
+
+func (w wrapImage) Layers() ([]v1.Layer, error) {
+	if w.layersErr {
+		return nil, errors.New("injected: cannot list layers")
+	}
+	ls, err := w.Image.Layers()
+	if err != nil {
+		return nil, err
+	}
+	out := append([]v1.Layer(nil), ls...)
+	if w.bad >= 0 && w.bad < len(out) {
+		out[w.bad] = badLayer{out[w.bad]}
+	}
+	return out, nil
+}
+
+type hostile struct {
+	typ  byte // r d l h
+	name string
+	link string
+}
+
+// hostileEntries: none of them makes the load fail (unique leaf names, no file used as a directory, no empty link name, no over-long
+// name), all of them try to reach something outside layer-<i>.  @V@ victim, @T@ TMPDIR, @C@ working directory, @R@ sandbox root (absolute).
+func hostileEntries(r *rand.Rand, layer int) []hostile {
+	up := []string{"..", "../..", "../../..", "../../../..", "../../../../..", "q/../..", "./..", "q/../../..", ".//..", "q/b/../../../.."}
+	dest := []string{"victim", "tmp-sibling", "cwd", "tmp/other", "tmp/osv-scalibr-image-scanning-0", "tmp", ""}
+	abs := []string{"@V@", "@T@", "@C@", "@R@", "@T@/other", "@T@/osv-scalibr-image-scanning-0", "@R@/tmp-sibling", "/", "//@V@", "/./@V@/.", "@V@/../victim", "/..", "/../..@V@"}
+	near := []string{"../layer-0", "../layer-1", "../layer-" + fmt.Sprint(layer) + "x", "../layer-" + fmt.Sprint(layer) + "-evil", "..a", "...", ".../..", "..../x", "layer-0/..", "q/..", "q/../b"}
+	var out []hostile
+	leaf := 0
+	name := func() string {
+		leaf++
+		var base string
+		switch x := r.Intn(100); {
+		case x < 40:
+			base = up[r.Intn(len(up))] + "/" + dest[r.Intn(len(dest))]
+		case x < 65:
+			base = abs[r.Intn(len(abs))]
+		case x < 85:
+			base = near[r.Intn(len(near))]
+		case x < 92:
+			base = "q/./b//"
+		default:
+			base = up[r.Intn(len(up))]
+		}
+		if r.Intn(5) == 0 {
+			base = "./" + base
+		}
+		return base + fmt.Sprintf("/h%d-%d", layer, leaf)
+	}
+	n := 2 + r.Intn(5)
+	shuffle := r.Intn(3) == 0 // any order
+	for i := 0; i < n; i++ {
+		switch x := r.Intn(100); {
+		case x < 45:
+			out = append(out, hostile{'r', name(), ""})
+		case x < 60:
+			out = append(out, hostile{'d', name() + "/", ""})
+		default:
+			// a link to somewhere outside, then entries written through it (and a link made through it)
+			leaf++
+			ln := fmt.Sprintf("k%d-%d", layer, leaf)
+			if r.Intn(3) == 0 {
+				ln = "q/" + ln
+			}
+			var target string
+			switch y := r.Intn(100); {
+			case y < 40:
+				target = abs[r.Intn(len(abs))]
+			case y < 80:
+				target = up[r.Intn(len(up))] + "/" + dest[r.Intn(len(dest))]
+			default:
+				target = near[r.Intn(len(near))]
+			}
+			typ := byte('l')
+			if r.Intn(4) == 0 {
+				typ = 'h'
+				if r.Intn(2) == 0 {
+					target += "/secret"
+				}
+			}
+			out = append(out, hostile{typ, ln, target})
+			out = append(out, hostile{'r', ln + "/secret", ""})
+			if r.Intn(2) == 0 {
+				out = append(out, hostile{'d', ln + "/dir/sub/", ""})
+				out = append(out, hostile{'r', ln + "/dir/file", ""})
+			}
+			if r.Intn(3) == 0 {
+				out = append(out, hostile{'l', ln + "/inner", "../secret"})
+			}
+			if r.Intn(4) == 0 && !shuffle {
+				out = append(out, hostile{'r', ln, ""}) // the link's own name again, as a file (before the link it would be kind c: a fatal error)
+			}
+		}
+	}
+	if shuffle {
+		r.Shuffle(len(out), func(i, j int) { out[i], out[j] = out[j], out[i] })
+	}
+	return out
+}
+
+func writeHostile(tw *tar.Writer, hs []hostile, subst func(string) string) {
+	for _, h := range hs {
+		hd := &tar.Header{Name: subst(h.name), Mode: 0o644, Format: tar.FormatPAX}
+		var body []byte
+		switch h.typ {
+		case 'r':
+			hd.Typeflag = tar.TypeReg
+			body = []byte("pwn")
+			hd.Size = 3
+		case 'd':
+			hd.Typeflag = tar.TypeDir
+			hd.Mode = 0o777
+		case 'l':
+			hd.Typeflag, hd.Linkname, hd.Mode = tar.TypeSymlink, subst(h.link), 0o777
+		case 'h':
+			hd.Typeflag, hd.Linkname = tar.TypeLink, subst(h.link)
+		}
+		if err := tw.WriteHeader(hd); err != nil {
+			continue
+		}
+		if body != nil {
+			_, err := tw.Write(body)
+			must(err)
+		}
+	}
+}
+
+type lcase struct {
+	hist   string
+	fail   int
+	kind   byte
+	pos    int
+	decoys int
+	seed   int64
+}
+
+func (c lcase) String() string {
+	f := "-"
+	if c.fail >= 0 {
+		f = strconv.Itoa(c.fail)
+	}
+	return fmt.Sprintf("load2 %s %s %c %d %d %d", c.hist, f, c.kind, c.pos, c.decoys, c.seed)
+}
+
+const tmpLen = 4055 // with "/osv-scalibr-image-scanning-" + 5..10 digits: at most 4093 bytes; "/layer-i" on top of that exceeds PATH_MAX
+
+func run(base string, id int, c lcase) string {
 	return hx.Guard(func() string {
 		root := filepath.Join(base, fmt.Sprintf("l%d", id))
-		tmp, cwd, sib := filepath.Join(root, "tmp"), filepath.Join(root, "cwd"), filepath.Join(root, "tmp-sibling")
-		for _, d := range []string{tmp, cwd, sib} {
+		tmp, cwd, sib, victim := filepath.Join(root, "tmp"), filepath.Join(root, "cwd"), filepath.Join(root, "tmp-sibling"), filepath.Join(root, "victim")
+		for _, d := range []string{tmp, cwd, sib, filepath.Join(victim, "dir")} {
 			must(os.MkdirAll(d, 0o755))
 		}
-		must(os.WriteFile(filepath.Join(sib, "keep"), []byte("k"), 0o644))
+		for _, f := range []string{filepath.Join(sib, "keep"), filepath.Join(cwd, "keep"), filepath.Join(victim, "secret"), filepath.Join(victim, "dir", "file")} {
+			must(os.WriteFile(f, []byte("k"), 0o644))
+		}
 		defer os.RemoveAll(root)
+		tmpdir, obs := tmp, tmp
+		switch c.kind {
+		case 'p':
+			for len(tmpdir) < tmpLen {
+				n := min(200, tmpLen-len(tmpdir)-1)
+				if rest := tmpLen - len(tmpdir) - 1 - n; rest == 1 { // never leave room for "/" alone
+					n--
+				}
+				tmpdir += "/" + strings.Repeat("p", n)
+			}
+			must(os.MkdirAll(tmpdir, 0o755))
+			obs = tmpdir
+		case 'm':
+			tmpdir = filepath.Join(tmp, "missing", "x")
+		}
+		for k, name := range []string{"osv-scalibr-image-scanning-0", "other"} {
+			if k < c.decoys {
+				sub := "layer-0"
+				if c.kind == 'p' {
+					sub = "" // no room for another level
+				}
+				must(os.MkdirAll(filepath.Join(obs, name, sub), 0o755))
+				must(os.WriteFile(filepath.Join(obs, name, sub, "keep"), []byte("k"), 0o644))
+			}
+		}
+		subst := strings.NewReplacer("@V@", victim, "@T@", obs, "@C@", cwd, "@R@", root).Replace
 		var adds []mutate.Addendum
-		for i := 0; i < nl; i++ {
-			b := layerBytes(i, i == fail, kind, pos)
+		badV1, nv1 := -1, 0
+		for i := 0; i < len(c.hist); i++ {
+			if c.hist[i] == 'E' {
+				adds = append(adds, mutate.Addendum{History: v1.History{CreatedBy: fmt.Sprintf("env-%d", i), EmptyLayer: true}})
+				continue
+			}
+			fatalHere := i == c.fail && c.kind != 'e'
+			var hs []hostile
+			if c.seed != 0 {
+				hs = hostileEntries(rand.New(rand.NewSource(c.seed*131+int64(i))), i)
+			}
+			b := layerBytes(i, fatalHere, c.kind, c.pos, hs, subst)
+			if i == c.fail && c.kind == 'e' {
+				badV1 = nv1
+			}
+			nv1++
 			l, err := tarball.LayerFromOpener(func() (io.ReadCloser, error) { return io.NopCloser(bytes.NewReader(b)), nil },
 				tarball.WithCompressionLevel(gzip.NoCompression))
 			must(err)
 			adds = append(adds, mutate.Addendum{Layer: l, History: v1.History{CreatedBy: fmt.Sprintf("cmd-%d", i)}})
 		}
-		img, err := mutate.Append(empty.Image, adds...)
+		built, err := mutate.Append(empty.Image, adds...)
 		must(err)
+		var img v1.Image = wrapImage{Image: built, bad: badV1, layersErr: c.kind == 'y'}
 		orig, _ := os.Getwd()
-		os.Setenv("TMPDIR", tmp)
+		os.Setenv("TMPDIR", tmpdir)
 		must(os.Chdir(cwd))
 		defer os.Chdir(orig)
-		outBefore := append(listing(cwd), listing(sib)...)
+		before := snap(root, "", obs)
 		cfg := &image.Config{MaxFileBytes: limit, MaxSymlinkDepth: 6, Requirer: &require.FileRequirerAll{}}
-		if kind == 'v' {
+		if c.kind == 'v' {
 			cfg.MaxFileBytes = 0
 		}
 		im, lerr := image.FromV1Image(img, cfg)
-		names, _ := os.ReadDir(tmp)
+		if lerr != nil && os.Getenv("C06LOAD_DEBUG") != "" {
+			fmt.Fprintln(os.Stderr, c.String(), "error:", lerr)
+		}
+		names, _ := os.ReadDir(obs)
 		left := len(names)
 		imgOK, partial := 0, 0
+		var changed, esc []string
 		if lerr == nil && im != nil {
-			if strings.HasPrefix(im.ExtractDir, tmp+string(filepath.Separator)) {
+			if strings.HasPrefix(im.ExtractDir, obs+string(filepath.Separator)) {
 				if st, e := os.Stat(im.ExtractDir); e == nil && st.IsDir() {
 					imgOK = 1
 				}
 			}
-			if len(listing(im.ExtractDir)) > 0 {
+			if len(snap(im.ExtractDir, "", "")) > 0 {
 				partial = 1
+			}
+			esc = escapes(im.ExtractDir)
+			for _, d := range diff(before, snap(root, im.ExtractDir, obs)) {
+				changed = append(changed, "after the load: "+d)
 			}
 			_ = im.CleanUp()
 		}
-		after, _ := os.ReadDir(tmp)
-		outAfter := append(listing(cwd), listing(sib)...)
-		out := "-"
-		if strings.Join(outBefore, "|") != strings.Join(outAfter, "|") {
-			out = hx.Hex(strings.Join(outAfter, "|"))
+		after, _ := os.ReadDir(obs)
+		for _, d := range diff(before, snap(root, "", obs)) {
+			changed = append(changed, "at the end: "+d)
+		}
+		hexOr := func(xs []string) string {
+			if len(xs) == 0 {
+				return "-"
+			}
+			if len(xs) > 6 {
+				xs = append(xs[:6], fmt.Sprintf("(+%d more)", len(xs)-6))
+			}
+			return hx.Hex(strings.Join(xs, "; "))
+		}
+		var ns []string
+		for _, n := range after {
+			ns = append(ns, n.Name()[:min(len(n.Name()), 27)])
 		}
 		leftNames := "-"
-		if len(after) > 0 {
-			var ns []string
-			for _, n := range after {
-				ns = append(ns, n.Name()[:min(len(n.Name()), 27)])
-			}
+		if len(ns) > 0 {
 			leftNames = hx.Hex(strings.Join(ns, ","))
 		}
-		return fmt.Sprintf("err=%s left=%d img=%d partial=%d clean=%d names=%s out=%s", hx.B(lerr != nil), left, imgOK, partial, len(after), leftNames, out)
+		return fmt.Sprintf("err=%s left=%d img=%d partial=%d clean=%d names=%s out=%s esc=%s", hx.B(lerr != nil), left, imgOK, partial, len(after), leftNames, hexOr(changed), hexOr(esc))
 	})
+}
+
+func parseCase(l string) lcase {
+	t := strings.Split(l, " ")
+	num := func(s string) int {
+		n, err := strconv.Atoi(s)
+		must(err)
+		return n
+	}
+	c := lcase{fail: -1}
+	switch {
+	case len(t) == 5 && t[0] == "load":
+		c.hist = strings.Repeat("L", num(t[1]))
+	case len(t) == 7 && t[0] == "load2":
+		c.hist = t[1]
+		c.decoys = num(t[5])
+		s, err := strconv.ParseInt(t[6], 10, 64)
+		must(err)
+		c.seed = s
+	default:
+		panic("bad case line " + l)
+	}
+	if t[2] != "-" {
+		c.fail = num(t[2])
+	}
+	c.kind, c.pos = t[3][0], num(t[4])
+	return c
 }
 
 func main() {
@@ -208,48 +533,69 @@ func main() {
 	out := hx.NewOut()
 	defer out.Flush()
 	id := 0
-	emit := func(nl, fail int, kind byte, pos int) {
+	emitLine := func(line string) {
 		id++
-		f := "-"
-		if fail >= 0 {
-			f = strconv.Itoa(fail)
-		}
-		out.Emit(fmt.Sprintf("load %d %s %c %d", nl, f, kind, pos), run(base, id, nl, fail, kind, pos))
+		out.Emit(line, run(base, id, parseCase(line)))
 	}
+	emit := func(c lcase) { emitLine(c.String()) }
 	if o.Replay != "" {
 		for _, l := range hx.ReplayLines(o.Replay) {
-			t := strings.Split(l, " ")
-			if len(t) != 5 || t[0] != "load" {
-				panic("bad case line " + l)
-			}
-			nl, err := strconv.Atoi(t[1])
-			must(err)
-			fail := -1
-			if t[2] != "-" {
-				fail, err = strconv.Atoi(t[2])
-				must(err)
-			}
-			pos, err := strconv.Atoi(t[4])
-			must(err)
-			emit(nl, fail, t[3][0], pos)
+			emitLine(l)
 		}
 		return
 	}
 	// exhaustive over the small space: 1..4 layers x every failing position x every kind x 0..2 good entries before
 	for nl := 1; nl <= 4; nl++ {
-		emit(nl, -1, '-', 0)
-		emit(nl, -1, 'v', 0)
+		hist := strings.Repeat("L", nl)
+		for _, kind := range []byte("-vymp") {
+			for decoys := 0; decoys <= 2; decoys++ {
+				emit(lcase{hist, -1, kind, 0, decoys, 0})
+			}
+		}
 		for fail := 0; fail < nl; fail++ {
-			for _, kind := range []byte("cthlndbou") {
+			for _, kind := range []byte("cthlndboue") {
 				for pos := 0; pos <= 2; pos++ {
-					emit(nl, fail, kind, pos)
+					emit(lcase{hist, fail, kind, pos, (fail + pos) % 3, 0})
+				}
+			}
+		}
+	}
+	// empty-layer history entries around and between the layers, each failure exit once more
+	for _, hist := range []string{"E", "EE", "EL", "LE", "ELE", "LEL", "ELEL", "EELLE", "LEEL"} {
+		emit(lcase{hist, -1, '-', 0, 1, 0})
+		emit(lcase{hist, -1, 'p', 0, 1, 0})
+		for fail := 0; fail < len(hist); fail++ {
+			if hist[fail] == 'L' {
+				for _, kind := range []byte("cte") {
+					emit(lcase{hist, fail, kind, 1, 2, 0})
 				}
 			}
 		}
 	}
 	r := hx.Rng(o)
+	allKinds := "cthlndboue-vymp"
 	for i := 0; i < o.N; i++ {
-		nl := 1 + r.Intn(6)
-		emit(nl, r.Intn(nl), "cthlndbou"[r.Intn(9)], r.Intn(4))
+		nl := 1 + r.Intn(5)
+		hist := make([]byte, nl)
+		var ls []int
+		for k := range hist {
+			hist[k] = 'L'
+			if r.Intn(5) == 0 {
+				hist[k] = 'E'
+			} else {
+				ls = append(ls, k)
+			}
+		}
+		c := lcase{hist: string(hist), fail: -1, kind: '-', decoys: r.Intn(3)}
+		if i%4 != 0 || len(ls) == 0 { // three quarters: hostile entries in every archive, with or without a failure on top
+			c.seed = 1 + r.Int63n(1<<40)
+		}
+		if len(ls) > 0 && r.Intn(2) == 0 {
+			c.kind = allKinds[r.Intn(len(allKinds))]
+			if strings.IndexByte("-vymp", c.kind) < 0 {
+				c.fail, c.pos = ls[r.Intn(len(ls))], r.Intn(4)
+			}
+		}
+		emit(c)
 	}
 }
